@@ -13,6 +13,8 @@ import (
 	"sigs.k8s.io/controller-runtime/pkg/client"
 
 	schedulingv1alpha2 "github.com/NVIDIA/KAI-scheduler/pkg/apis/scheduling/v1alpha2"
+	schedulingv2 "github.com/NVIDIA/KAI-scheduler/pkg/apis/scheduling/v2"
+	schedulingv2alpha2 "github.com/NVIDIA/KAI-scheduler/pkg/apis/scheduling/v2alpha2"
 	vr "github.com/NVIDIA/KAI-scheduler/pkg/zz_verifrt"
 )
 
@@ -22,6 +24,8 @@ type Store struct {
 	Nodes        map[string]*v1.Node
 	BindRequests map[string]*schedulingv1alpha2.BindRequest
 	ConfigMaps   map[string]*v1.ConfigMap
+	Queues       []*schedulingv2.Queue
+	PodGroups    []*schedulingv2alpha2.PodGroup
 	Calls        []string // every API call, in order
 	Writes       []string // mutating calls only
 	FaultsOn     bool
@@ -99,6 +103,42 @@ func (c *Client) Get(ctx context.Context, k client.ObjectKey, obj client.Object,
 		st.DeepCopyInto(o)
 	default:
 		panic(fmt.Sprintf("zz_veriffake: Get of unsupported type %T", obj))
+	}
+	return nil
+}
+
+// List supports the two indexed lists of the queue controller: child queues by parent, pod groups
+// by queue (the field selector value of client.MatchingFields is honoured like the real index).
+func (c *Client) List(ctx context.Context, list client.ObjectList, opts ...client.ListOption) error {
+	want := ""
+	for _, o := range opts {
+		if mf, ok := o.(client.MatchingFields); ok {
+			for _, v := range mf {
+				want = v
+			}
+		}
+	}
+	switch l := list.(type) {
+	case *schedulingv2.QueueList:
+		if err := c.S.call("list-queues", false); err != nil {
+			return err
+		}
+		for _, q := range c.S.Queues {
+			if q.Spec.ParentQueue == want {
+				l.Items = append(l.Items, *q.DeepCopy())
+			}
+		}
+	case *schedulingv2alpha2.PodGroupList:
+		if err := c.S.call("list-podgroups", false); err != nil {
+			return err
+		}
+		for _, pg := range c.S.PodGroups {
+			if pg.Spec.Queue == want {
+				l.Items = append(l.Items, *pg.DeepCopy())
+			}
+		}
+	default:
+		panic(fmt.Sprintf("zz_veriffake: List of unsupported type %T", list))
 	}
 	return nil
 }
